@@ -291,3 +291,29 @@ Definition response_size_paths : bool :=
                      (match after_first "r.c.instrumenter.IncrementSize" tr with
                       | Some r => negb (occurs "r.c.instrumenter.IncrementSize" r) | None => false end)) &&
   some_path "rpcResponseMessage.DecodeMessage" (occurs "newUncompressedDecoder").
+
+(* ---------- fourth batch ---------- *)
+(* paths together with "did the path end in an explicit return?" (deferred calls are left out: none in the functions used) *)
+Definition traces_r (fn : string) : list (list string * bool) :=
+  match lookup fn body_census with
+  | Some b => map (fun s => (rev (p_tr s), p_ret s)) (exec fuel0 b pst0)
+  | None => []
+  end.
+Definition is_arm (c : string) : bool := String.eqb (substring 0 4 c) "arm ".
+Fixpoint mem_str (x : string) (l : list string) : bool := match l with [] => false | y :: r => String.eqb x y || mem_str x r end.
+
+(* C03: the writer goroutine does nothing with a queue item but run its notifier and hand its bytes to the connection in ONE
+   Write call: these are the only calls on any path (no buffering layer, no second write, no flush) *)
+Definition writer_loop_vocabulary : bool :=
+  all_paths "framedMsgpackEncoder.writerLoop"
+    (forallb (fun c => is_arm c || mem_str c ["close"; "write.sn"; "e.writer.Write"])) &&
+  all_paths "framedMsgpackEncoder.writerLoop" (at_most_once "e.writer.Write") &&
+  some_path "framedMsgpackEncoder.writerLoop" (occurs "e.writer.Write").
+
+(* C10: the writer goroutine leaves its loop only through the arm that Close's channel enables - never because a Write failed -
+   so a sender that arrives after a failed write still finds a receiver (or the closed channel) *)
+Definition writer_loop_exits_only_when_done : bool :=
+  let t := traces_r "framedMsgpackEncoder.writerLoop" in
+  negb (Nat.eqb (length t) 0) &&
+  forallb (fun p => implb (snd p) (occurs "arm Arm Recv ""e.doneCh""" (fst p) && negb (occurs "e.writer.Write" (fst p)))) t &&
+  existsb (fun p => snd p) t.
